@@ -197,6 +197,10 @@ def directed_cases():
 
 def run_minimize(cj, basis, params, cutmode, cutseed, validate):
     import random
+    # exact synthesis of a cone of more than four gates without a time limit can keep a solver busy for hours
+    # (it has to prove that no smaller circuit exists): unlimited search only for small cones
+    if params.get('solver_time_limit_sec') == 0 and params.get('max_subcircuit_size', 9) > 4:
+        params = dict(params, solver_time_limit_sec=15)
     import mockturtle_wrapper as mw
     from cirbo.minimization.subcircuit import minimize_subcircuits
 
